@@ -44,7 +44,8 @@ def _worker(arg):
     fn, params, opts = jobs[idx]
     opts = {k: v for k, v in opts.items() if k != 'cost'}
     hdef = fn.harness
-    kn = [k for k in known if fnmatch.fnmatch(hdef.name, k.get('harness', '*'))]
+    kn = [k for k in known if fnmatch.fnmatch(hdef.name, k.get('harness', '*'))
+          and all(params.get(a) == b for a, b in (k.get('params') or {}).items())]
     try:
         res = cxm.run_job(hdef, params, known=kn, repo_prefix=repo_root(), **opts)
     except BaseException as e:   # noqa: BLE001
